@@ -136,6 +136,14 @@ def phase1(task, outdir):
     from nessai.flowsampler import FlowSampler
     import nessai.samplers.nestedsampler as nsm
     model = make_model(task.get("dims", 2))
+    if task.get("prior_samplers"):
+        # a pipeline: earlier analyses in the same process (their own output, their own exit code)
+        for j in range(int(task["prior_samplers"])):
+            kw = sampler_kwargs(task)
+            kw.update(exit_code=EXIT_CODE + 1 + j, max_iteration=8)
+            prior = FlowSampler(make_model(task.get("dims", 2)), output=os.path.join(outdir, f"prior{j}"), resume=True,
+                                signal_handling=True, **kw)
+            prior.run(plot=False, save=False)
     fs = FlowSampler(model, output=outdir, resume=True, signal_handling=True, **sampler_kwargs(task))
     ns = fs.ns
     code, lineno = resolve_target(task)
@@ -151,10 +159,12 @@ def phase1(task, outdir):
     def inject(frame):
         sys.settrace(None)
         frame.f_trace = None
-        stack, f = [], frame
+        stack, frames, f = [], [], frame
         while f is not None:
             stack.append(f.f_code.co_name)
+            frames.append([f.f_code.co_name, f.f_lineno, os.path.basename(f.f_code.co_filename)])
             f = f.f_back
+        info["frames"] = frames[:12]
         info.update({"reached": True, "calls": st["calls"], "base": st["base"],
                      "func": frame.f_code.co_name, "lineno": frame.f_lineno, "stack": stack[:12]})
         if ins:
@@ -165,7 +175,8 @@ def phase1(task, outdir):
         with open(os.path.join(outdir, "inject.json"), "w") as fh:
             json.dump(info, fh)
         if task.get("real_signal"):
-            os.kill(os.getpid(), signal.SIGTERM)   # the registered handler runs before the next bytecode
+            # whatever handler the process has REGISTERED for the signal runs before the next bytecode
+            os.kill(os.getpid(), getattr(signal, task.get("signum", "SIGTERM")))
             time.sleep(5)
             os._exit(99)
         fs.safe_exit(signal.SIGTERM, frame)       # raises SystemExit(exit_code) at this line
